@@ -166,7 +166,7 @@ def check_union_typevar(ctx):
         ctx.bad("C15.2", f, f.node, "a union none of whose members can be made is not a ValueError", construct="empty union ValueError")
     else:
         ctx.ok("C15.2", f.qualname, "not-made members dropped; none left -> ValueError; one -> itself; several -> Union")
-    unions = [a for a in ast.walk(f.node) if isinstance(a, ast.Assign) and norm(a.value) == "Union[out]"]
+    unions = [a for a in ast.walk(f.node) if isinstance(a, ast.Subscript) and norm(a) == "Union[out]"]
     if not unions:
         ctx.bad("C15.2", f, f.node, "several made members are not returned as their Union", construct="Union[out]")
     # TypeVar table
@@ -227,7 +227,14 @@ def check_scalar_ladder(ctx):
                 ctx.ok("C15.3", f.qualname, f"{t} <-> prefix '{prefix}'")
         if [norm(a) for a in calls[0].args[1:]] != ["dtypes", "dims"]:
             ctx.bad("C15.3", f, calls[0], "_check_scalar is not given (dtypes, dims) of this annotation")
-        rets = [norm(x.value) for b in st.body for x in ast.walk(b) if isinstance(x, ast.Return)]
+        rets = []
+        for b in st.body:
+            for x in ast.walk(b):
+                if isinstance(x, ast.Return):
+                    if isinstance(x.value, ast.IfExp) and x.value.test is calls[0]:
+                        rets += [norm(x.value.body), norm(x.value.orelse)]  # `return T if _check_scalar(..) else _not_made`
+                    else:
+                        rets.append(norm(x.value))
         if sorted(rets) != sorted([at, "_not_made"]):
             ctx.bad("C15.3", f, st, f"a scalar arm returns {rets} (expected the scalar type itself, or the not-made marker)")
     for t in ("bool", "int", "float", "complex"):
@@ -272,6 +279,12 @@ def check_scalar_ladder(ctx):
                 while isinstance(tt, ast.UnaryOp) and isinstance(tt.op, ast.Not):
                     neg = not neg
                     tt = tt.operand
+                if isinstance(tt, ast.Name):
+                    from . import c05 as _c05
+
+                    d_ = _c05._assignments_to(cs, tt.id)
+                    if len(d_) == 1 and d_[0][2] is None:
+                        tt = d_[0][1]
                 if isinstance(tt, ast.Call) and norm(tt.func) in ("all", "any") and tt.args and isinstance(tt.args[0], ast.GeneratorExp) and len(tt.args[0].generators) == 1 \
                         and norm(tt.args[0].generators[0].iter) == dims and isinstance(tt.args[0].generators[0].target, ast.Name):
                     tab = variadic_table(tt.args[0].elt, tt.args[0].generators[0].target.id)
@@ -281,8 +294,10 @@ def check_scalar_ladder(ctx):
                         okd = True
     if okd:
         ctx.ok("C15.3", cs.qualname, "scalars survive only when every dim is a multi-axis specifier (the shape admits rank 0)")
+    elif not any("_anonymous_variadic_dim" in norm(x) or "_NamedVariadicDim" in norm(x) for x in ast.walk(cs.node) if isinstance(x, ast.expr)):
+        ctx.bad("C15.3", cs, cs.node, "_check_scalar no longer looks at the dims at all: a Python scalar is admitted for shapes that do not admit rank 0", construct="_check_scalar: dims not inspected")
     else:
-        ctx.bad("C15.3", cs, cs.node, "_check_scalar no longer demands that every dim is a multi-axis specifier", construct="_check_scalar dims loop")
+        raise AnalysisError("C15.3: the all-multi-axis test of _check_scalar has a form the rule does not recognise")
     last = cs.body[-1]
     txt = norm(last)
     mem_calls = [c for c in ast.walk(last) if isinstance(c, ast.Call)]
